@@ -3,6 +3,7 @@ package mod
 import (
 	"errors"
 	"fmt"
+	"math"
 	"time"
 
 	"go.riyazali.net/sqlite"
@@ -121,6 +122,14 @@ func (c *ConnModule) Update(value sqlite.Value, values ...sqlite.Value) error {
 			newWriteTime, err = time.Parse(s3db.SQLiteTimeFormat, writeTime.Text())
 			if err != nil {
 				return fmt.Errorf("write_time: must be like %s", s3db.SQLiteTimeFormat)
+			}
+			// Write times are stored as nanoseconds since 1970 in 64 bits.
+			// Outside that range they wrap around, and a later time would
+			// silently lose against an earlier one.
+			if newWriteTime.Before(time.Unix(0, math.MinInt64)) || newWriteTime.After(time.Unix(0, math.MaxInt64)) {
+				return fmt.Errorf("write_time: must be between %s and %s",
+					time.Unix(0, math.MinInt64).UTC().Format(s3db.SQLiteTimeFormat),
+					time.Unix(0, math.MaxInt64).UTC().Format(s3db.SQLiteTimeFormat))
 			}
 		}
 	}
